@@ -610,13 +610,15 @@ def G_faceCoplanar : List Stmt := [
     .s (.raise "FaceCreationError" (.and (.flag "check_coplanar") (.cmp .gt (.abs (.dot (.vsub (.vvar "points[1]") (.vvar "points[0]")) (.cross (.vsub (.vvar "points[3]") (.vvar "points[0]")) (.vsub (.vvar "points[2]") (.vvar "points[0]"))))) .tol)))]
 
 def G_faceAddEdge : List Stmt := [
-    .s (.raise "FaceCreationError" (.or (.cmp .lt (.var "corner") (.int 0)) (.cmp .gt (.var "corner") (.int 3))))]
+    .s (.raise "FaceCreationError" (.or (.cmp .lt (.var "corner") (.int 0)) (.cmp .gt (.var "corner") (.int 3)))),
+    .s (.implicit "IndexError" (.not (.and (.cmp .le (.int (-4)) (.var "corner")) (.cmp .lt (.var "corner") (.int 4)))))]
 
 def G_faceProjectEdge : List Stmt := [
-    .s (.raise "FaceCreationError" (.or (.cmp .lt (.var "corner") (.int 0)) (.cmp .gt (.var "corner") (.int 3))))]
+    .s (.raise "FaceCreationError" (.or (.cmp .lt (.var "corner") (.int 0)) (.cmp .gt (.var "corner") (.int 3)))),
+    .s (.implicit "IndexError" (.not (.and (.cmp .le (.int (-4)) (.var "corner")) (.cmp .lt (.var "corner") (.int 4)))))]
 
 def G_faceRemoveEdges : List Stmt := [
-    .each "corner" "corners" [.raise "FaceCreationError" (.or (.cmp .lt (.var "corner") (.int 0)) (.cmp .gt (.var "corner") (.int 3))), .mutate "self.edges"]]
+    .each "corner" "corners" [.raise "FaceCreationError" (.or (.cmp .lt (.var "corner") (.int 0)) (.cmp .gt (.var "corner") (.int 3))), .implicit "IndexError" (.not (.and (.cmp .le (.int (-4)) (.var "corner")) (.cmp .lt (.var "corner") (.int 4)))), .mutate "self.edges"]]
 
 def G_pointShape : List Stmt := [
     .s (.mutate "self.position"),
@@ -631,7 +633,8 @@ def G_sideVertices : List Stmt := [
     .s (.raise "SideCreationError" (.cmp .ne (.len "vertices") (.int 8)))]
 
 def G_opAddSideEdge : List Stmt := [
-    .s (.raise "EdgeCreationError" (.or (.cmp .lt (.var "corner_idx") (.int 0)) (.cmp .gt (.var "corner_idx") (.int 3))))]
+    .s (.raise "EdgeCreationError" (.or (.cmp .lt (.var "corner_idx") (.int 0)) (.cmp .gt (.var "corner_idx") (.int 3)))),
+    .s (.implicit "IndexError" (.not (.and (.cmp .le (.int (-4)) (.var "corner_idx")) (.cmp .lt (.var "corner_idx") (.int 4)))))]
 
 def G_opProjectCorner : List Stmt := [
     .s (.raise "ValueError" (.or (.cmp .lt (.var "corner") (.int 0)) (.cmp .gt (.var "corner") (.int 7))))]
@@ -641,6 +644,9 @@ def G_opProjectEdge : List Stmt := [
 
 def G_opUnchop : List Stmt := [
     .s (.raise "KeyError" (.not (.iin (.var "axis") [0, 1, 2])))]
+
+def G_opChop : List Stmt := [
+    .s (.implicit "KeyError" (.not (.iin (.var "axis") [0, 1, 2])))]
 
 def G_opSide : List Stmt := [
     .s (.ret (.seq "side" "bottom")),
@@ -763,6 +769,7 @@ def modelGuardTable : List (String × List Stmt) := [
   ("opProjectCorner", G_opProjectCorner),
   ("opProjectEdge", G_opProjectEdge),
   ("opUnchop", G_opUnchop),
+  ("opChop", G_opChop),
   ("opSide", G_opSide),
   ("fromSeries", G_fromSeries),
   ("blockAddEdge", G_blockAddEdge),
@@ -808,7 +815,7 @@ def pyShape : List Nat → List Nat
   | 0 :: _ => [0]
   | d :: r => d :: pyShape r
 
-/-- the entry point(s) of the source a call of the catalogue goes through (`opChop` has no explicit guard) -/
+/-- the entry point(s) of the source a call of the catalogue goes through (`opChop` has an implicit guard only: the look-up in the dict of chops) -/
 def entryOf : Call → Option String
   | .faceShape _ _ => some "faceShape"
   | .faceEdges _ => some "faceEdges"
@@ -822,7 +829,7 @@ def entryOf : Call → Option String
   | .opAddSideEdge _ => some "opAddSideEdge"
   | .opProjectCorner _ => some "opProjectCorner"
   | .opProjectEdge _ _ => some "opProjectEdge"
-  | .opChop _ => none
+  | .opChop _ => some "opChop"
   | .opUnchop _ => some "opUnchop"
   | .opSide _ => some "opSide"
   | .fromSeries _ => some "fromSeries"
